@@ -218,6 +218,10 @@ fn view_name(app: &trippy_tui::verif::TuiApp) -> String {
     format!("{base}{}{}", if app.show_flows { "+flows" } else { "" }, if app.trace_info.len() > 1 { "+tabs" } else { "" })
 }
 
+/// Set once a draw has hung in this process: the thread that hung keeps a core busy for the rest of
+/// the run, so later sessions avoid the one column set that is known to do that.
+static HANG_SEEN: std::sync::atomic::AtomicBool = std::sync::atomic::AtomicBool::new(false);
+
 pub fn session(seed: u64, i: usize, tier: Tier, which: Which, progress: &crate::framework::Progress) -> Outcome {
     let mut o = Outcome::default();
     let mut r = Prng::new(seed ^ (i as u64).wrapping_mul(0x9E37_79B9_7F4A_7C15) ^ 0xC17);
@@ -240,6 +244,10 @@ pub fn session(seed: u64, i: usize, tier: Tier, which: Which, progress: &crate::
         max_samples: *r.pick(&[1usize, 3, 256]),
         with_geoip: r.chance(2, 3),
     };
+    let mut setup = setup;
+    if setup.columns.len() == 27 && HANG_SEEN.load(std::sync::atomic::Ordering::Relaxed) {
+        setup.columns = "holsravbwdtjgxiSPQ".to_string();
+    }
     let site = format!("{protocol}/{strategy}/traces{traces}");
     let replay = json!({"how": format!("vcheck {} --seed {seed} --only {i}", if which == Which::Crash { "C17" } else { "C18" }), "scenario": i, "setup": format!("{setup:?}")});
     // secrets for every address that can appear
@@ -286,6 +294,7 @@ pub fn session(seed: u64, i: usize, tier: Tier, which: Which, progress: &crate::
     let mut stats = SessionStats { draws: 0, keys: 0, views: BTreeSet::new(), privacy_values: BTreeSet::new(), hidden_hops_checked: 0, visible_hops_checked: 0 };
     let keys = all_keys(&s.app);
     let mut history: Vec<String> = Vec::new();
+    let mut burst: std::collections::VecDeque<(&'static str, crossterm::event::KeyEvent)> = std::collections::VecDeque::new();
     let mut record = |h: &mut Vec<String>, e: String| {
         if h.len() >= 12 {
             h.remove(0);
@@ -371,6 +380,16 @@ pub fn session(seed: u64, i: usize, tier: Tier, which: Which, progress: &crate::
             let d = guarded(|| term.draw(|f| trippy_tui::verif::render(f, app)).map(|_| ()));
             match d {
                 Ok(_) => {}
+                // ratatui's constraint solver giving up on the hop table's column constraints
+                // ("failed to split: InternalSolverError"): the panicking sibling of the draw
+                // that never returns, keyed like it on the column set
+                Err(p) if p.message.contains("failed to split") || p.message.contains("InternalSolverError") => {
+                    let base = view_name(&s.app);
+                    let base = base.split('+').next().unwrap_or("").to_string();
+                    let view = if ["chart", "map", "splash", "error"].contains(&base.as_str()) { base } else { "table".to_string() };
+                    o.violate("layout_solver_fails", format!("view={view}|columns={}", setup.columns), format!("{ctx}: render at {}x{} panicked at {}:{}: {}", s.size.0, s.size.1, p.file, p.line, p.message), replay.clone());
+                    return o;
+                }
                 Err(p) if p.in_repo() => {
                     o.violate("no_panic", format!("{site}|render|{}|{}", view_name(&s.app), p.site()), format!("{ctx}: render at {}x{} panicked at {}:{}: {}", s.size.0, s.size.1, p.file, p.line, p.message), replay.clone());
                     return o;
@@ -391,9 +410,22 @@ pub fn session(seed: u64, i: usize, tier: Tier, which: Which, progress: &crate::
                 return o;
             }
         }
-        // ---- one key press (sometimes none)
-        if r.chance(4, 5) {
-            let (name, key) = *r.pick(&keys);
+        // ---- one key press (sometimes none); now and then a purposeful burst: open the columns
+        // tab of the settings, walk down the list (possibly to its end), move / toggle columns
+        if burst.is_empty() && r.chance(1, 60) {
+            let find = |n: &str| keys.iter().find(|(k, _)| *k == n).copied();
+            if let (Some(open), Some(down), Some(mv_down), Some(mv_up), Some(toggle)) = (find("toggle_settings_columns"), find("next_hop"), find("next_hop_address"), find("previous_hop_address"), find("toggle_chart")) {
+                burst.push_back(open);
+                for _ in 0..*r.pick(&[0u64, 1, 5, 26, 27, 30]) {
+                    burst.push_back(down);
+                }
+                for _ in 0..r.range(1, 4) {
+                    burst.push_back(*r.pick(&[mv_down, mv_down, mv_up, toggle]));
+                }
+            }
+        }
+        if !burst.is_empty() || r.chance(4, 5) {
+            let (name, key) = burst.pop_front().unwrap_or_else(|| *r.pick(&keys));
             // keyboard clause of C18: expand / contract move the privacy ttl by exactly one step
             let before = s.app.tui_config.privacy_max_ttl;
             let hop_count = {
@@ -460,6 +492,20 @@ pub fn session(seed: u64, i: usize, tier: Tier, which: Which, progress: &crate::
     o
 }
 
+/// The privacy check shares the session driver with the crash check, but a front end that crashes
+/// is C17's subject: under C18 such sessions are counted, not judged.
+fn for_property(mut o: Outcome, which: Which) -> Outcome {
+    if which == Which::Privacy {
+        let before = o.violations.len();
+        o.violations.retain(|v| !matches!(v.clause.as_str(), "no_panic" | "layout_solver_fails" | "selection_refers_to_existing_entries"));
+        let dropped = before - o.violations.len();
+        if dropped > 0 {
+            o.count("sessions_ended_by_a_front_end_crash_not_judged_under_this_property", dropped as u64);
+        }
+    }
+    o
+}
+
 pub fn run(tier: Tier, seed: u64, only_arg: Option<String>, which: Which) -> i32 {
     // `--only N` = mirrored-driver session N, `--only loop:N` = real-loop session N
     let only_loop: Option<usize> = only_arg.as_deref().and_then(|s| s.strip_prefix("loop:")).and_then(|s| s.parse().ok());
@@ -479,7 +525,7 @@ pub fn run(tier: Tier, seed: u64, only_arg: Option<String>, which: Which) -> i32
     if only_arg.is_some() {
         rep.required_clauses.clear();
     }
-    let n = tier.pick(300, 8_000);
+    let n = tier.pick(300, 3_000);
     let hang = move |item: usize, ctx: &str| {
         // a draw (or key) that has not returned for 20s (normally milliseconds): a frozen front end
         let mut o = Outcome::default();
@@ -487,6 +533,12 @@ pub fn run(tier: Tier, seed: u64, only_arg: Option<String>, which: Which) -> i32
         let view = parts.next().unwrap_or("view=?").to_string();
         let cols = parts.next().unwrap_or("columns=?").to_string();
         o.hit("draw_completes");
+        // what hangs is the layout of the hop table, which is drawn in every view except the
+        // full-screen ones (the dialogs, the details, flows and tabs panels only overlay it)
+        let base = view.trim_start_matches("view=");
+        let base = base.split('+').next().unwrap_or(base);
+        let view = if ["chart", "map", "splash", "error"].contains(&base) { view.clone() } else { "view=table".to_string() };
+        HANG_SEEN.store(true, std::sync::atomic::Ordering::Relaxed);
         if which == Which::Crash {
             o.violate("draw_terminates", format!("{view}|{cols}"), format!("session {item}: drawing did not return within 20s ({ctx})"), json!({"how": format!("vcheck {id} --seed {seed} --only {item}"), "scenario": item, "context": ctx}));
         } else {
@@ -496,13 +548,13 @@ pub fn run(tier: Tier, seed: u64, only_arg: Option<String>, which: Which) -> i32
         o
     };
     match (only, only_loop) {
-        (Some(i), _) => rep.run_parallel_watchdog(1, 20, move |_, p| session(seed, i, tier, which, p), hang),
+        (Some(i), _) => rep.run_parallel_watchdog(1, 20, move |_, p| for_property(session(seed, i, tier, which, p), which), hang),
         (None, Some(_)) => {}
-        (None, None) => rep.run_parallel_watchdog(n, 20, move |i, p| session(seed, i, tier, which, p), hang),
+        (None, None) => rep.run_parallel_watchdog(n, 20, move |i, p| for_property(session(seed, i, tier, which, p), which), hang),
     }
     // ---- stage 2: the real run_app event loop, keys typed into a pseudo terminal (child processes)
     if only.is_none() {
-        let n_loop = tier.pick(64, 1_600);
+        let n_loop = tier.pick(64, 800);
         for o in crate::props::c17_loop::run_children(seed, tier, which, n_loop, only_loop) {
             rep.merge(o);
         }
